@@ -85,6 +85,27 @@ class ExternalLib:
         return call
 
 
+_PRE = [False]
+
+
+def _preimport():
+    """Import every coefficient-function module BEFORE stubs are installed, so that module-level
+    code (class attributes calling adani, grid loading) runs against the real libraries."""
+    if _PRE[0]:
+        return
+    _PRE[0] = True
+    import importlib
+    import pkgutil
+
+    import yadism.coefficient_functions as cf
+
+    for mi in pkgutil.walk_packages(cf.__path__, cf.__name__ + "."):
+        try:
+            importlib.import_module(mi.name)
+        except Exception:  # noqa  (import failures are reported by C16/C03 inventories)
+            pass
+
+
 def _all_cf_modules():
     pref = "yadism.coefficient_functions"
     return [m for n, m in list(sys.modules.items()) if n.startswith(pref) and isinstance(m, types.ModuleType)]
@@ -96,6 +117,8 @@ def cf_stubs(np_shim=None, external=True):
     coefficient-function module.  Yields the dict of external library stubs."""
     import yadism.coefficient_functions  # noqa
     from yadism.coefficient_functions import special
+
+    _preimport()
     from yadism.coefficient_functions.special import nielsen as nielsen_mod
 
     shim = np_shim or npshim.NPShim()
